@@ -491,7 +491,7 @@ func writerCopies(c *an.Ctx, rule string) {
 	p := c.P
 	ioWriter := func(t types.Type) bool { return t != nil && an.TypeName(t) == "io.Writer" }
 	n := 0
-	for _, f := range p.Fns {
+	for _, f := range p.Units() {
 		if f.Pkg != p.Jet || f.Body == nil {
 			continue
 		}
@@ -566,7 +566,7 @@ func writerCopies(c *an.Ctx, rule string) {
 func c01swapFields(c *an.Ctx) {
 	p := c.P
 	info := p.Jet.TypesInfo
-	for _, f := range p.Fns {
+	for _, f := range p.Units() {
 		if f.Pkg != p.Jet || f.Body == nil {
 			continue
 		}
@@ -620,7 +620,7 @@ func c01default(c *an.Ctx) {
 		c.Check(got == "text/template.HTMLEscape", "C01.default", "NewSet/escapee", ns.Pos(), "the default escaper is text/template.HTMLEscape", "NewSet installs "+got+" as the default escaper instead of text/template.HTMLEscape")
 	}
 	// writers of Set.escapee
-	for _, f := range p.Fns {
+	for _, f := range p.Units() {
 		if f.Pkg != p.Jet || f.Body == nil {
 			continue
 		}
@@ -637,7 +637,7 @@ func c01default(c *an.Ctx) {
 	// the four SafeWriter built-ins
 	want := map[string]string{`"safeHtml"`: "text/template.HTMLEscape", `"safeJs"`: "text/template.JSEscape", `"raw"`: an.JetPath + ".unsafePrinter", `"unsafe"`: an.JetPath + ".unsafePrinter"}
 	found := map[string]string{}
-	for _, f := range p.Fns {
+	for _, f := range p.Units() {
 		if f.Pkg != p.Jet || f.Decl == nil || f.Decl.Name.Name != "init" {
 			continue
 		}
